@@ -242,6 +242,22 @@ func init() {
 		}
 		return Res{"done": true, "n": n}
 	})
+	// ScribbleRem: the caller overwrites the remainder slice the parser returned (usually the tail of the buffer; whatever it is, it is the caller's)
+	register("ScribbleRem", func(s *Session, a Args) Res {
+		rem, ok := s.Bufs[a.Str("h")+"#rem"]
+		if !ok {
+			return Res{"done": false}
+		}
+		for i := range rem {
+			rem[i] = ^rem[i]
+		}
+		// ... and whatever lies behind it in the same array
+		full := rem[:cap(rem)]
+		for i := len(rem); i < len(full); i++ {
+			full[i] = ^full[i]
+		}
+		return Res{"done": true, "n": len(full)}
+	})
 	register("ScribbleReturned", func(s *Session, a Args) Res {
 		v, ok := s.Vals[a.Str("h")]
 		if !ok || v == nil {
